@@ -6,7 +6,7 @@ from xrlcheck import verdict, Broken, NCPU
 def run(ctx):
     tier = "quick" if ctx.quick else "thorough"
     extra = []
-    san_env = lambda tag: {"ASAN_OPTIONS": "detect_leaks=1:log_path=%s/asan-%s" % (ctx.scratch, tag), "UBSAN_OPTIONS": "print_stacktrace=1:log_path=%s/ubsan-%s" % (ctx.scratch, tag),
+    san_env = lambda tag: {"ASAN_OPTIONS": "detect_leaks=1:allocator_may_return_null=1:log_path=%s/asan-%s" % (ctx.scratch, tag), "UBSAN_OPTIONS": "print_stacktrace=1:log_path=%s/ubsan-%s" % (ctx.scratch, tag),
                            "XRL_SCRATCH_DIR": ctx.scratch}
     # 1. the ledger model
     r = ctx.tlc_must_pass("MC_C04", workers=8)
